@@ -21,6 +21,7 @@ mkdir -p /verif/seeded/$name
 cp /tmp/wt/patch-$id.diff /verif/seeded/$name/patch.diff
 cp $out/demo_test.go /verif/seeded/$name/demo_test.go
 cp $out/NOTES.md /verif/seeded/$name/agent_notes.md 2>/dev/null
+rm -rf /tmp/evidence.bak.$$ && cp -r /verif/evidence /tmp/evidence.bak.$$
 cd /repo && git apply /verif/seeded/$name/patch.diff || { echo "PATCH DOES NOT APPLY"; exit 2; }
 results=""
 for p in "$@"; do
@@ -30,4 +31,5 @@ for p in "$@"; do
   results="$results $p:$rc"
 done
 cd /repo && git checkout -- . && git status --short | head -3
+cp /tmp/evidence.bak.$$/*.json /verif/evidence/ && rm -rf /tmp/evidence.bak.$$
 echo "RESULTS passes=$passes demo_with=$with demo_without=$without checks:$results"
